@@ -7,9 +7,11 @@ import (
 	crand "crypto/rand"
 	"crypto/rsa"
 	"crypto/sha1"
+	"crypto/sha256"
 	stdx509 "crypto/x509"
 	"crypto/x509/pkix"
 	"encoding/asn1"
+	"encoding/hex"
 	"fmt"
 	"math/big"
 	"math/rand"
@@ -771,6 +773,44 @@ func cmdSig(args []string) {
 			nvar++
 		}
 	}
+	// third: under a configuration whose string options hold the identifiers of the base certificate (what an allow-list of
+	// known certificates would hold): a rule that recognises "its" certificate by a digest over the signature stops recognising it
+	identCfgs := 0
+	for oi, t := range objs {
+		if only != "" && t.ID != only {
+			continue
+		}
+		var mine []kept
+		for _, k := range keep {
+			if k.oi == oi && (k.vn == "zero" || k.vn == "flip-last" || k.vn == "random0") {
+				mine = append(mine, k)
+			}
+		}
+		if len(mine) == 0 {
+			continue
+		}
+		s256, s1, spki := sha256.Sum256(t.DER), sha1.Sum(t.DER), sha256.Sum256(t.Cert.RawSubjectPublicKeyInfo)
+		colons := func(b []byte) string {
+			parts := make([]string, len(b))
+			for i, x := range b {
+				parts[i] = fmt.Sprintf("%02X", x)
+			}
+			return strings.Join(parts, ":")
+		}
+		idents := []string{hex.EncodeToString(s256[:]), colons(s256[:]), strings.ToUpper(hex.EncodeToString(s256[:])), hex.EncodeToString(s1[:]), colons(s1[:]),
+			hex.EncodeToString(spki[:]), t.Cert.SerialNumber.Text(16), hex.EncodeToString(t.Cert.FingerprintSHA256), hex.EncodeToString(t.Cert.FingerprintSHA1)}
+		e := h.cat.identifierConfig("identifiers:"+t.ID, idents)
+		if e == nil {
+			break // no lint has an option that could hold them
+		}
+		identCfgs++
+		h.setCfg(0, e.id)
+		h.lint(oi, 0, "identifiers-original", false)
+		for _, k := range mine {
+			h.lintTarget(oi, k.t, 0, "identifiers-sig:"+k.vn, false)
+		}
+		h.setCfg(0, "empty")
+	}
 	// second pass, variant-major: the same signature value (all zero, all ones, the shaped dummy) on one certificate after
 	// the other - what a pre-issuance pipeline does; the verdicts must still be those of the first pass (memo per base)
 	sort.SliceStable(keep, func(i, j int) bool { return keep[i].vn < keep[j].vn })
@@ -789,7 +829,7 @@ func cmdSig(args []string) {
 			}
 		}
 	}
-	ev.WriteJSON(out("summary.json"), ev.M{"events": n, "lint_calls": h.nLint, "variants": nvar, "bases": bases, "self_issued_skipped": skippedSelf, "bases_nontrivial": len(nontriv),
+	ev.WriteJSON(out("summary.json"), ev.M{"events": n, "lint_calls": h.nLint, "variants": nvar, "bases": bases, "self_issued_skipped": skippedSelf, "identifier_configurations": identCfgs, "bases_nontrivial": len(nontriv),
 		"objects": len(objs), "pairs_with_details": len(nontriv), "sample": ev.M{"variant": "flip-middle", "base": objs[0].ID}})
 }
 
